@@ -149,8 +149,17 @@ class Src:
     def func(self, mod: str, qual: str) -> ast.FunctionDef:
         body: list[ast.stmt] = self.mod(mod).body
         node: Any = None
+        def flat(stmts: list[ast.stmt]) -> list[ast.stmt]:
+            out: list[ast.stmt] = []
+            for st in stmts:
+                if isinstance(st, ast.Try):        # optional back-ends are defined under try/except ImportError
+                    out += flat(st.body)
+                else:
+                    out.append(st)
+            return out
+
         for part in qual.split("."):
-            for s in body:
+            for s in flat(body):
                 if isinstance(s, (ast.FunctionDef, ast.ClassDef)) and s.name == part:
                     node = s
                     body = s.body
@@ -616,7 +625,7 @@ def state_inventory(src: Src) -> list[str]:
         except (FileNotFoundError, SyntaxError) as ex:
             raise Unavailable(f"module {m}: {ex}")
         module_names[m] = set()
-        for st in tree.body:
+        for st in _flat_try(tree.body):
             if isinstance(st, ast.ClassDef):
                 classes.add(st.name)
                 attrs = set()
@@ -683,8 +692,18 @@ def state_inventory(src: Src) -> list[str]:
     return sorted(set(shared)) + ["--"] + sorted(set(sites))
 
 
+def _flat_try(stmts: list[ast.stmt]) -> list[ast.stmt]:
+    out: list[ast.stmt] = []
+    for st in stmts:
+        if isinstance(st, ast.Try):
+            out += _flat_try(st.body)
+        else:
+            out.append(st)
+    return out
+
+
 def _functions(tree: ast.Module):
-    for st in tree.body:
+    for st in _flat_try(tree.body):
         if isinstance(st, (ast.FunctionDef, ast.AsyncFunctionDef)):
             yield st, st.name
         elif isinstance(st, ast.ClassDef):
@@ -811,6 +830,46 @@ def _c08_json_type_ext(src: Src) -> str:
 @item("C08", "ebcdicValue", "def ebcdicValueSrc : List String := [] -- extraction unavailable")
 def _c08_value(src: Src) -> str:
     return f"def ebcdicValueSrc : List String := {lean_str_list(pinned_source(src, 'schema_instance', 'EBCDIC.value'))}"
+
+
+# ---- C15 / C09 / C14: pinned sources of the loader, the navigators, the facade ------------------
+
+
+def _pin_item(prop: str, name: str, mod: str, qual: str) -> None:
+    @item(prop, name, f"def {name} : List String := [] -- extraction unavailable")
+    def _f(src: Src, _mod=mod, _qual=qual, _name=name) -> str:
+        return f"def {_name} : List String := {lean_str_list(pinned_source(src, _mod, _qual))}"
+
+
+def _pin_many(prop: str, name: str, targets: list[tuple[str, str]]) -> None:
+    @item(prop, name, f"def {name} : List String := [] -- extraction unavailable")
+    def _f(src: Src, _targets=targets, _name=name) -> str:
+        out: list[str] = []
+        for mod, qual in _targets:
+            out.append(f"## {mod}.{qual}")
+            out += pinned_source(src, mod, qual)
+        return f"def {_name} : List String := {lean_str_list(out)}"
+
+
+_pin_item("C15", "walkSchemaSrc", "schema_instance", "SchemaMaker.walk_schema")
+_pin_item("C15", "resolveSrc", "schema_instance", "SchemaMaker.resolve")
+_pin_many("C15", "dnavSrc", [("schema_instance", "DNav.name"), ("schema_instance", "DNav.index"), ("schema_instance", "DNav.value"),
+                             ("schema_instance", "SchemaMaker.from_json")])
+_pin_item("C09", "headerSrc", "workbook", "HeadingRowSchemaLoader.header")
+_pin_item("C09", "wbnavNameSrc", "schema_instance", "WBNav.name")
+_pin_many("C09", "rowIterSrc", [("workbook", "Sheet.row_iter"), ("workbook", "SchemaLoader.header"), ("workbook", "SchemaLoader.body")])
+_pin_item("C09", "externalLoadSrc", "workbook", "ExternalSchemaLoader.load")
+_pin_item("C09", "rowValuesSrc", "workbook", "Row.values")
+_pin_many("C14", "registrySrc", [("workbook", "WBFileRegistry.__init__"), ("workbook", "WBFileRegistry.file_suffix"),
+                                 ("workbook", "WBFileRegistry.open_workbook")])
+_pin_many("C14", "closeSrcs", [("workbook", "Workbook.__enter__"), ("workbook", "Workbook.__exit__"), ("workbook", "CSV_Workbook.close"),
+                               ("workbook", "CSVUnpacker.close"), ("workbook", "JSON_Workbook.close"), ("workbook", "JSONUnpacker.close"),
+                               ("workbook", "COBOL_Text_File.close"), ("workbook", "COBOL_EBCDIC_File.close"),
+                               ("schema_instance", "EBCDIC.close"), ("schema_instance", "TextUnpacker.close"),
+                               ("implementations", "XLS_Workbook.close"), ("implementations", "XLSUnpacker.close"),
+                               ("implementations", "XLSX_Workbook.close"), ("implementations", "XLSXUnpacker.close"),
+                               ("implementations", "ODS_Workbook.close"), ("implementations", "ODSUnpacker.close"),
+                               ("implementations", "Numbers_Workbook.close"), ("implementations", "NumbersUnpacker.close")])
 
 
 # ------------------------------------------------------------------------------------------
